@@ -124,8 +124,12 @@ RStep(H(_), s) ==
          ELSE [s EXCEPT !.dec = Step(s.dec), !.req = NoReq, !.sub = NoSub]
     [] s.pc = "done" -> s
 
-RECURSIVE RRun(_, _)
-RRun(H(_), s) == IF s.pc = "done" THEN s ELSE RRun(H, RStep(H, s))
+RECURSIVE RRunK(_, _, _)
+RRunK(H(_), s, k) ==    \* doubling recursion, see Decoder!RunK
+  IF s.pc = "done" THEN s
+  ELSE IF k = 0 THEN RStep(H, s)
+  ELSE LET t == RRunK(H, s, k - 1) IN IF t.pc = "done" THEN t ELSE RRunK(H, t, k - 1)
+RRun(H(_), s) == RRunK(H, s, 12)
 
 \* big-step: an ok/err item
 Reveal(H(_), a, secret, rv) == RRun(H, RInit(a, secret, rv)).res
